@@ -7,9 +7,9 @@ map's entries *in the order this execution happens to visit them*; the possible 
 permutations of the entry list (keys are distinct – it is a map).  One model function per site of the
 regenerated table `Facts.mapRangeSites` (see `siteTable` in Spec/DetOrder.lean):
 
-  cmd/shoot main                       range srcMap                 → `writeAll`   (files) + `messageOf` (log)
+  cmd/shoot main                       range srcMap                 → `writeAll`   (files) + `successMessage` (sorted log lines)
   shoot.(*GeneratorBase).LoadPackage   range g.overlay              → `messageOf`  (-v log line only)
-  restclient.cookClient                range asMap                  → `reverseMap` (last writer wins)
+  restclient.cookClient                range asMap                  → `reverseMapChecked` (duplicate ⇒ Fatal, else injective)
   restclient.cookClient                range headers                → `putAll`     (distinct keys)
   restclient.cookClient                range g.data.DefaultHeaders  → `eachTable`  (every table gets the same update)
   restclient.parseHeaders              range kvMap                  → `putAll`
@@ -38,7 +38,7 @@ def putAll {κ ν : Type} (ord : Entries κ ν) (dst : Entries κ ν) : Entries 
 /-- main.go:75-78: write every file (rename(2) replaces the entry) -/
 def writeAll (ord : Entries String String) (dir : Entries String String) : Entries String String := putAll ord dir
 
-/-- main.go:86-88 (`fileNames`) and generatorbase.go:199-203 (`keys`, only with -v): the names in iteration order -/
+/-- generatorbase.go:199-203 (`keys` of the overlay, a debug line printed only with -v): the names in iteration order -/
 def messageOf {ν : Type} (ord : Entries String ν) : List String := keys ord
 
 /-! ## every table gets the same update: `for _, headers := range DefaultHeaders { headers[k] = v }` -/
@@ -46,14 +46,28 @@ def messageOf {ν : Type} (ord : Entries String ν) : List String := keys ord
 def eachTable {τ κ ν : Type} (ord : Entries τ (Entries κ ν)) (k : κ) (v : ν) : Entries τ (Entries κ ν) :=
   ord.map (fun t => (t.1, put t.2 k v))
 
-/-! ## last writer wins: `for k, v := range asMap { reversMap[v] = k }` (cook.go:103-105) -/
+/-! ## reversing the alias map (cook.go): `for k, v := range asMap { if dup → Fatal; reversMap[v] = k }`
+    Before fix 62d8144 there was no duplicate test and the last writer won (`reverseMap`); now two parameters
+    with the same alias stop the run before anything is written (`reverseMapChecked = none`). -/
 
 def reverseMap (ord : Entries String String) : Entries String String :=
   ord.foldl (fun d e => put d e.2 e.1) []
 
-/-- cook.go:108-115: path placeholders replaced by the parameter aliased to them -/
+def revStep (d : Option (Entries String String)) (e : String × String) : Option (Entries String String) :=
+  match d with
+  | none => none
+  | some m => if (keys m).contains e.2 then none else some (put m e.2 e.1)
+
+/-- none = `logx.Fatalf` (exit 1, no file written) -/
+def reverseMapChecked (ord : Entries String String) : Option (Entries String String) := ord.foldl revStep (some [])
+
+/-- cook.go: path placeholders replaced by the parameter aliased to them (before the fix) -/
 def realPathParams (ord : Entries String String) (pathParams : List String) : List String :=
   pathParams.map (fun p => (get (reverseMap ord) p).getD p)
+
+/-- the same at HEAD: none = the run failed on a duplicate alias -/
+def realPathParamsChecked (ord : Entries String String) (pathParams : List String) : Option (List String) :=
+  (reverseMapChecked ord).map (fun r => pathParams.map (fun p => (get r p).getD p))
 
 /-! ## `getGoFile` (generatorbase.go)
 
@@ -115,6 +129,9 @@ def insertSorted (a : String) : List String → List String
   | b :: l => if a ≤ b then a :: b :: l else b :: insertSorted a l
 
 def sortStrings (l : List String) : List String := l.foldr insertSorted []
+
+/-- main.go (`fileNames`, since fix 376a366 followed by `sort.Strings`): the success message -/
+def successMessage {ν : Type} (ord : Entries String ν) : List String := sortStrings (keys ord)
 
 /-- the whole of nilCheckWrite for one side: one pass per written promoted field, each pass with its own
     iteration order (`ords`), then the sort.  Result: `PtrPathList` and `PtrTypeMap` -/
